@@ -124,11 +124,11 @@ def probes():
         view = d + "/view"
         try:
             p.create_linked_view(prefix=view)
-            out.append(("view:nested-separator-not-rejected", "known finding F20"))
+            out.append(("view:nested-separator-not-rejected", "a nested state point value containing the path separator is not rejected by create_linked_view (repaired defect F20)"))
         except RuntimeError:
             pass
         except Exception:
-            out.append(("view:nested-separator-not-rejected", "known finding F20"))
+            out.append(("view:nested-separator-not-rejected", "a nested state point value containing the path separator is not rejected by create_linked_view (repaired defect F20)"))
     with dir_scratch() as d:
         os.makedirs(d + "/p")
         p = signac.init_project(d + "/p")
@@ -137,7 +137,7 @@ def probes():
         try:
             p.create_linked_view(prefix=view, job_ids=[])
             if any(os.path.islink(os.path.join(dp, n)) for dp, dn, fn in os.walk(view) for n in dn + fn):
-                out.append(("view:empty-selection-links-a-job", "known finding F21"))
+                out.append(("view:empty-selection-links-a-job", "create_linked_view(job_ids=[]) links an unselected job (repaired defect F21)"))
         except Exception:
             pass
     return out
@@ -168,5 +168,5 @@ def run(tier="quick", seed=0):
         failures.append({"key": key, "description": desc, "script": ""})
     return {"scope": "6 state point universes (homogeneous, nested, heterogeneous, unicode / dots / spaces, single job) x histories of 2-5 steps over {create view, add / remove / re-key jobs, "
                      "view of a job_ids subset}; after every view: one link per selected job resolving to its directory, no dead directories, equals a from-scratch build, second run is a no-op; "
-                     "colliding automatic paths must be refused or linked exactly; probes for F20 / F21",
+                     "colliding automatic paths must be refused or linked exactly; probes for the repaired defects F20 / F21",
             "evaluations": evals, "distinct_nontrivial": len(distinct), "rule": "a case is one history; distinct by (universe, operation sequence)", "samples": samples, "failures": failures}
